@@ -2,6 +2,7 @@ package c02
 
 import (
 	"fmt"
+	"os"
 	"strconv"
 	"strings"
 	"sync"
@@ -21,6 +22,14 @@ func configs() []config {
 	return []config{
 		{"v4-reno-sack", netsim.PairCfg{V6: false, SACK: true, CC: "reno", MTU: 1500}},
 		{"v6-cubic-nosack", netsim.PairCfg{V6: true, SACK: false, CC: "cubic", MTU: 1500}},
+		// keep-alive with a 5 ms idle time on both endpoints: probes are answered, a healthy
+		// connection must never be given up (4 unanswered probes would be needed)
+		{"v4-reno-keepalive", netsim.PairCfg{V6: false, SACK: true, CC: "reno", MTU: 1500, KeepaliveMs: 5}},
+		// the active (resp. passive) opener's initial sequence number sits below 2^32 by the
+		// receive window plus half the data: the right edge of the peer's window crosses the
+		// wrap point while the data has not yet (the value is filled in by withRcvBuf)
+		{"v6-reno-window-edge-wraps-a", netsim.PairCfg{V6: true, SACK: true, CC: "reno", MTU: 1500, PlaceActive: true}},
+		{"v4-cubic-window-edge-wraps-b", netsim.PairCfg{V6: false, SACK: false, CC: "cubic", MTU: 1500, PlacePassive: true}},
 	}
 }
 
@@ -33,12 +42,23 @@ func scenarios() []Scenario {
 		{Kind: "zerowindow", AtoB: 4096, BtoA: 10}, // exactly fills the receive buffer: FIN pending behind a closed window with everything acknowledged
 		{Kind: "oneway", AtoB: 100, BtoA: 0},
 		{Kind: "oneway", AtoB: 0, BtoA: 0},
+		{Kind: "idle", AtoB: 2000, BtoA: 300},
 	}
 }
 
 func withRcvBuf(sc Scenario, cfg netsim.PairCfg) netsim.PairCfg {
 	if sc.Kind == "zerowindow" {
 		cfg.RcvBuf = 4096
+	}
+	wnd := cfg.RcvBuf
+	if wnd <= 0 {
+		wnd = 1 << 20
+	}
+	if cfg.PlaceActive && cfg.ActiveISS == 0 {
+		cfg.ActiveISS = 0 - uint32(wnd+sc.AtoB/2+1)
+	}
+	if cfg.PlacePassive && cfg.PassiveISS == 0 {
+		cfg.PassiveISS = 0 - uint32(wnd+sc.BtoA/2+1)
 	}
 	return cfg
 }
@@ -193,9 +213,12 @@ type Batch struct {
 	Cases []Case `json:"cases"`
 }
 
+// forceWrap is set by the C14 unit of the plan that hosts this package's random-fault test.
+var forceWrap = os.Getenv("C02_FORCE_WRAP") == "1"
+
 func genCase(rt *rapid.T) Case {
 	var c Case
-	c.Sc.Kind = rapid.SampledFrom([]string{"oneway", "simultaneous", "halfclose", "zerowindow"}).Draw(rt, "kind")
+	c.Sc.Kind = rapid.SampledFrom([]string{"oneway", "simultaneous", "halfclose", "zerowindow", "idle"}).Draw(rt, "kind")
 	size := rapid.OneOf(rapid.IntRange(0, 3), rapid.IntRange(1, 3000), rapid.IntRange(3000, 40000))
 	c.Sc.AtoB = size.Draw(rt, "a_to_b")
 	c.Sc.BtoA = size.Draw(rt, "b_to_a")
@@ -213,7 +236,35 @@ func genCase(rt *rapid.T) Case {
 	c.Cfg.SACK = rapid.Bool().Draw(rt, "sack")
 	c.Cfg.CC = rapid.SampledFrom([]string{"reno", "cubic"}).Draw(rt, "cc")
 	c.Cfg.MTU = rapid.SampledFrom([]int{1280, 1500, 9000}).Draw(rt, "mtu")
+	c.Cfg.RcvBuf = rapid.SampledFrom([]int{0, 0, 0, 4096, 16384, 65536}).Draw(rt, "rcvbuf")
 	c.Cfg = withRcvBuf(c.Sc, c.Cfg)
+	// sequence-number placement: next to a wrap point, at most (bytes sent + receive window)
+	// below it, so that the data or the right edge of the window crosses it (always when hosted
+	// by C14's plan with C02_FORCE_WRAP=1)
+	if forceWrap || rapid.SampledFrom([]int{0, 0, 0, 1}).Draw(rt, "place") == 1 {
+		near := func(label string, size int) uint32 {
+			wnd := c.Cfg.RcvBuf
+			if wnd <= 0 {
+				wnd = 1 << 20
+			}
+			// below the point by: at most the data (the data crosses it), the window plus part
+			// of the data (the right edge of the window crosses it first), or anything up to both
+			k := uint32(rapid.OneOf(rapid.IntRange(0, size+2), rapid.IntRange(wnd+1, wnd+size+1), rapid.IntRange(0, size+wnd+2)).Draw(rt, label+"_k"))
+			if rapid.Bool().Draw(rt, label+"_32") {
+				return 0 - k
+			}
+			return 1<<31 - k
+		}
+		switch rapid.IntRange(0, 2).Draw(rt, "place_who") {
+		case 0:
+			c.Cfg.PlaceActive, c.Cfg.ActiveISS = true, near("active", c.Sc.AtoB)
+		case 1:
+			c.Cfg.PlacePassive, c.Cfg.PassiveISS = true, near("passive", c.Sc.BtoA)
+		default:
+			c.Cfg.PlaceActive, c.Cfg.ActiveISS = true, near("active", c.Sc.AtoB)
+			c.Cfg.PlacePassive, c.Cfg.PassiveISS = true, near("passive", c.Sc.BtoA)
+		}
+	}
 	mss := c.Cfg.MTU - 40 - 12
 	if c.Cfg.V6 {
 		mss -= 20
